@@ -404,7 +404,7 @@ func (r *Reader) MarkdownWithOptions(opts ExtractOptions) (string, error) {
 		}
 	}
 
-	return strings.TrimSpace(result.String()), nil
+	return strings.Trim(result.String(), "\r\n"), nil
 }
 
 // MarkdownWithRAGOptions returns document content as Markdown with both extraction
@@ -552,7 +552,7 @@ func (r *Reader) MarkdownWithRAGOptions(extractOpts ExtractOptions, mdOpts rag.M
 		}
 	}
 
-	return strings.TrimSpace(result.String()), nil
+	return strings.Trim(result.String(), "\r\n"), nil
 }
 
 // writeMarkdownListItem writes a list item in markdown format.
